@@ -10,6 +10,38 @@ COMMON_NOTE = ('Trusted: Lean 4.33 kernel with axioms propext/Classical.choice/Q
 
 # id -> (technique, level text, extra note, design_ref)
 CHECKS = {
+    'C01': ('Lean 4 proof: inductive invariant over all reachable states of a labelled transition system with adversarial scheduler; '
+            'progress + decreasing measure; trace-acceptance correspondence under forced worker schedules',
+            'Theorems for every configuration (nworkers>=1, extracache, skipNone), source, function and every schedule of worker '
+            'start/finish events: the window is the contiguous ordered range [taken, drawn), the output so far is the spec of the '
+            'taken prefix (par_safety), every final state delivered exactly spec (par_final), no deadlock (par_progress), every run '
+            'is finite (par_measure/par_terminates), serial = parallel = spec, chains compose. The same step? function is the trace '
+            'acceptor that validates event traces of the real code under forced out-of-order completions on every run.',
+            'multiprocessing.Pool is modelled (FIFO-free dispatch to idle workers, get() returns the task outcome); maxtasksperchild only '
+            'changes which OS process serves a task and is exercised, not modelled.',
+            'DESIGN.md §6 C01'),
+    'C02': ('Lean 4 proof: window invariants of the transition system (window_bound, window_full_when_waiting, workers_saturated, '
+            'draws_at_yield, lazy_init); draw-counter correspondence under demand histories and withheld completions',
+            'Theorems over all reachable states: nothing is drawn and no pool exists before the first next; drawn-taken <= nworkers+extracache; '
+            'the window is exactly full whenever the generator waits in the main loop; when no start is possible running = min(nworkers, '
+            'unfinished); serial draws exactly one element per processed element.',
+            '"processed at the same time in distinct processes" is observed (distinct pids with completions withheld), not proved.',
+            'DESIGN.md §6 C02'),
+    'C03': ('Lean 4 proof: failure clause of the specification + par_final/serial_final over all schedules and failure positions; '
+            'correspondence over every failure position/kind with forced completion orders',
+            'Theorems: spec = ordered prefix then the exception (function failure at k or source failure after k), delivered by every '
+            'maximal parallel run under every schedule and by the serial run; after a final state next() changes nothing and no output '
+            'is ever added.',
+            'A task whose element/result cannot be pickled is modelled as that task failing (Pool behaviour, exercised for real).',
+            'DESIGN.md §6 C03'),
+    'C04': ('Lean 4 proof: pool-scoping invariant over every exit edge of the generator (close, throw, failure, exhaustion); '
+            'process-table observation at every stop point',
+            'Theorems over all reachable states and every consumer behaviour: the pool is alive exactly while the generator body is '
+            'entered and not left; every final state has the pool terminated or never created; a stream that is never advanced '
+            'creates no pool; worker events need a live pool.',
+            'That Pool.terminate() ends the OS processes and the behaviour at interpreter exit are runtime facts: observed in /proc and '
+            'with child interpreters, not proved.',
+            'DESIGN.md §6 C04'),
     'C05': ('Lean 4 proof (induction + field algebra) over the executable accumulator model; model-vs-code correspondence in exact rationals',
             'Theorems for every field of characteristic 0 and every finite sequence: Mean/Variance/Cov2/Counter/Min/Max runs equal the batch '
             'statistic, with n, sum, rms, mean read-outs, the n=1 error branch and invariance under permutation of arrival order. '
